@@ -24,7 +24,8 @@ LINECOV = set()  # (file relative to the package, line) reached by any worker of
 
 
 def executable_lines(path):
-    """line numbers that carry code in a source file (from the compiled code objects, as sys.monitoring sees them)"""
+    """line numbers inside *function bodies* of a source file (from the compiled code objects, as sys.monitoring
+    sees them); module- and class-level lines run at import and say nothing about the workload"""
     try:
         top = compile(open(path).read(), path, "exec")
     except Exception:
@@ -32,7 +33,8 @@ def executable_lines(path):
     out, todo = set(), [top]
     while todo:
         co = todo.pop()
-        out.update(l for _, _, l in co.co_lines() if l is not None and l > 0)
+        if co.co_flags & 0x1:  # CO_OPTIMIZED: a function body
+            out.update(l for _, _, l in co.co_lines() if l is not None and l > co.co_firstlineno)
         todo += [k for k in co.co_consts if hasattr(k, "co_lines")]
     return out
 
